@@ -192,6 +192,16 @@ def do_loadfault(env, op, pending):
     if f in ("dangling", "ill-typed"):
         holder, field = _site_fields(env, mapper, im, op["site"])
         setattr(holder, field, uuidlib.UUID(int=0xFEEDFACE).bytes if f == "dangling" else env.uuid(op["to"]).bytes)
+    elif f == "dup-uuid":
+        # both nodes (and therefore every reference to either) carry the UUID of the first; the two 16-byte strings
+        # are swapped in the serialised message
+        ua, ub = env.uuid(op["site"]["a"]).bytes, env.uuid(op["site"]["b"]).bytes
+        raw = im.SerializeToString()
+        if raw.count(ub) == 0 or raw.count(ua) == 0:
+            raise MachineryFailure("dup-uuid: node not in the message: %r" % (op["site"],))
+        im2 = type(im)()
+        im2.ParseFromString(raw.replace(ub, ua))
+        im = im2
     elif f == "dup-uuid-same-kind":
         mods = list(im.modules)
         secs = [x for m in mods for x in m.sections]
